@@ -1167,6 +1167,10 @@ class HfpAgDriver(RfcommDriver):
             for i in range(len(b)):
                 yield ('trunc', base, b[:i])
         yield from rf.at_frames(r2, 'ag', 300)
+        # every valid command two and three times in one chunk, each such chunk directly before a reference
+        for base in rf.AG_COMMANDS:
+            for k in (2, 3):
+                yield ('solo-repeat', base, (base.encode() + b'\r') * k)
 
     def phys(self, data):
         return (len(data) + 119) // 120
@@ -1212,6 +1216,11 @@ class HfpAgDriver(RfcommDriver):
             return self.channel_closed_by_victim() or [
                 (symptom, f'AT+CMEE=1 got no final result code (received {bytes(rfs.rx)!r}); AG read_buffer starts with '
                           f'{stuck!r} ({len(ag.read_buffer) if ag else 0} bytes)')]
+        if got is not None and got.endswith(b'\r\n\r\nOK\r\n') and got.startswith(b'\r\n'):
+            # the victim consumed the reference line (it is no longer in its buffer) and the stream ends with its
+            # OK: what precedes are late answers to earlier hostile lines, which this property does not forbid
+            self.env.r.ev('late_answers_to_earlier_lines')
+            return []
         return [('wrong-answer-after-garbage', f'AT+CMEE=1 answered {bytes(rfs.rx)!r}')]
 
     async def reference(self):
@@ -1275,6 +1284,11 @@ class HfpHfDriver(RfcommDriver):
             for i in range(len(b)):
                 yield ('trunc', base, b[:i])
         yield from rf.at_frames(r2, 'hf', 300)
+        # a result code whose parameters are not UTF-8, with a final result code in the same chunk,
+        # each such chunk directly before a reference
+        for base in rf.HF_RESULTS:
+            for final in (b'ERROR', b'OK'):
+                yield ('solo-non-utf8-then-final', base, b'\r\n' + base.encode() + b',\xa6\xa9\r\n\r\n' + final + b'\r\n')
 
     def phys(self, data):
         return (len(data) + 119) // 120
@@ -1474,7 +1488,9 @@ async def run_case(case, r: R):
             if case.get('stride', 1) > 1:
                 off = case['seed'] % case['stride']
                 frames = frames[off::case['stride']]
-            groups = [frames[i:i + 5] for i in range(0, len(frames), 5)]
+            solo = [f for f in frames if f[0].startswith('solo-')]
+            frames = [f for f in frames if not f[0].startswith('solo-')]
+            groups = [frames[i:i + 5] for i in range(0, len(frames), 5)] + [[f] for f in solo]
         else:
             groups = None
         k = 0
